@@ -145,6 +145,18 @@ let run_lemon line =
       | EFail -> "F"
       | EOverflow -> "O") ev)
 
+(* ---------- tree checker: input = "<srclen> <n> id:type:start:len:next:prev:child:tail:mate ..." *)
+let run_tree line =
+  match split_on ' ' line with
+  | srclen :: _ :: toks ->
+    let big = n_of_int 1073741823 in
+    let nn s = let v = int_of_string s in if v < 0 then big else n_of_int v in
+    let h = List.map (fun x -> match String.split_on_char ':' x with
+      | [_; ty; st; ln; nx; pv; ch; _; mt] -> { ty = nn ty; st = nn st; ln = nn ln; nx = nn nx; pv = nn pv; ch = nn ch; mt = nn mt }
+      | _ -> failwith "bad token") toks in
+    if wf_tree h (nn srclen) then "1" else "0"
+  | _ -> "0"
+
 let () =
   let model = Sys.argv.(1) in
   let f = match model with
@@ -152,6 +164,7 @@ let () =
     | "dstring-spec" -> run_dstring true
     | "pool" -> run_pool
     | "lemon" -> run_lemon
+    | "tree" -> run_tree
     | _ -> failwith "unknown model" in
   try while true do
     let line = input_line stdin in
